@@ -97,6 +97,9 @@ package api
 //@ ghost var lastDescribeCollection *DescribeCollectionParam
 //@ ghost var lastDescribeDatabase *DescribeDatabaseParam
 //@ ghost var lastDescribePartition *DescribePartitionParam
+// replicateFailures / lastReplicateErr: downstream replicate-message calls that returned an error, and the last such error
+//@ ghost var replicateFailures int
+//@ ghost var lastReplicateErr error
 //@ trusted func (DataHandler).CreateCollection
 //@   params recv ctx param
 //@   ensures opCalls == old(opCalls) + 1 && opKind == "CreateCollection" && lastCreateCollection == param
@@ -168,7 +171,8 @@ package api
 //@ trusted func (DataHandler).ReplicateMessage
 //@   params recv ctx param
 //@   ensures opCalls == old(opCalls) + 1 && opKind == "ReplicateMessage" && lastReplicateMessage == param
-//@   modifies opCalls, opKind, lastReplicateMessage, umaps(string;uint64)
+//@   ensures [failed-downstream-writes-are-counted] (result != nil ==> replicateFailures == old(replicateFailures) + 1 && lastReplicateErr == result) && (result == nil ==> replicateFailures == old(replicateFailures))
+//@   modifies opCalls, opKind, lastReplicateMessage, umaps(string;uint64), replicateFailures, lastReplicateErr
 //@ trusted func (DataHandler).CreateUser
 //@   params recv ctx param
 //@   ensures opCalls == old(opCalls) + 1 && opKind == "CreateUser" && lastCreateUser == param
@@ -225,6 +229,21 @@ package api
 //@   params recv message
 //@   ensures sentMessages == old(sentMessages) + 1 && lastSentParam == old(message.Param)
 //@   modifies sentMessages, lastSentParam, ReplicateMessageParam.TargetMsgPosition
+
+// ---- C07 / C06: the completion callbacks of a message handed to the message manager ------------------------------
+// failCalls / successCalls: invocations of the FailFunc / SuccessFunc stored in a ReplicateMessage; lastFailErr: the
+// error the last FailFunc invocation was given (HandleReplicateMessage's callbacks pass it on to the caller)
+//@ ghost var failCalls int
+//@ ghost var successCalls int
+//@ ghost var lastFailErr error
+//@ trusted func field:ReplicateMessage.FailFunc
+//@   params param err
+//@   ensures failCalls == old(failCalls) + 1 && lastFailErr == err
+//@   modifies failCalls, lastFailErr
+//@ trusted func field:ReplicateMessage.SuccessFunc
+//@   params param
+//@   ensures successCalls == old(successCalls) + 1
+//@   modifies successCalls
 
 // ---- C13: the catalog reader's hand-off protocol (api.MetaOp as ghost counters) ----------------------------------
 // subsColl/subsPart: subscriptions made; watchColl/watchPart: watch requests made; listedColl/listedPart: listings
